@@ -349,6 +349,8 @@ def catalogue(fs, rng, rich=False):
     cars = [tone, tone2, sil1,
             {'t': 'samtone', 'fc': fs / 6.0, 'fm': fs / 40.0, 'level': 1.0},
             {'t': 'bbnoise', 'seed': 7, 'level': 1.0},
+            {'t': 'bbnoise', 'seed': 0, 'level': 0.5},
+            {'t': 'blnoise', 'seed': 0, 'level': 1.0, 'fl': fs / 10, 'fh': fs / 5},
             {'t': 'blnoise', 'seed': 3, 'level': 1.0, 'fl': fs / 10, 'fh': fs / 5},
             {'t': 'firnoise', 'seed': 5, 'level': 1.0, 'fl': fs / 10, 'fh': fs / 5},
             {'t': 'shaped', 'seed': 9, 'level': 1.0},
